@@ -60,7 +60,7 @@ type Sched struct {
 	Trace        []string // (thread, label) per step when KeepTrace
 	KeepTrace    bool
 	timers       []*timerRec
-	NoAdvanceAlt bool // never offer "advance time while threads are runnable"
+	NoAdvanceAlt bool             // never offer "advance time while threads are runnable"
 	adopted      map[uintptr]bool // goroutines mapped to a thread without having been spawned by it (coroutines)
 	Leaked       int              // threads left blocked in a real operation when the execution ended
 }
